@@ -1,7 +1,11 @@
 package broker
 
 import (
+	"bytes"
+	"time"
+
 	"github.com/emitter-io/stats"
+	"github.com/kelindar/rate"
 
 	"github.com/emitter-io/emitter/internal/config"
 	"github.com/emitter-io/emitter/internal/message"
@@ -117,4 +121,48 @@ func VerifC10Broker(v *verifrt.T) {
 		next[p[0]]++
 	}
 	v.Observe("len", uint64(len(out())))
+}
+
+// VerifC10Throttled: "whatever the broker's ... rate limiting decide": a publisher whose
+// connection is read-throttled (one packet per 80 ms; the check right after a packet and the
+// one 50 ms later are refused, the third passes) is delayed, not cut: the real Process loop
+// on its byte stream - CONNECT and sequence-numbered PUBLISH packets with arbitrary payload
+// bytes - delivers every message to the stable subscriber, once and in order.
+func VerifC10Throttled(v *verifrt.T) {
+	e := c10new()
+	sub, ssock := hconn(e.svc, 0)
+	pub, psock := hconn(e.svc, 1)
+	e.svc.connections = 2
+	v.Assert(e.ps.OnSubscribe(sub, []byte(e.rw+"/a/")) == nil, "C10.env.subscribed")
+	hLimitScript = nil
+	pub.limit = new(rate.Limiter)
+	if v.Bool("throttled") {
+		if v.Symbolic() {
+			hLimitScript = []bool{false, true, true, false, true, true, false, true, true, false, true, true, false, true, true, false}
+		} else {
+			pub.limit = rate.New(1, 80*time.Millisecond)
+		}
+	}
+	n := v.Bound("tmsgs")
+	var stream bytes.Buffer
+	(&mqtt.Connect{ProtoName: []byte("MQTT"), Version: 4, ClientID: []byte("p")}).EncodeTo(&stream)
+	data := make([]byte, n)
+	for k := 0; k < n; k++ {
+		data[k] = v.U8("data", k)
+		(&mqtt.Publish{Topic: []byte(e.rw + "/a/"), Payload: []byte{byte(k), data[k]}}).EncodeTo(&stream)
+	}
+	stream.Write([]byte{0xe0, 0x00}) // DISCONNECT
+	psock.in = append([]byte(nil), stream.Bytes()...)
+	before := len(ssock.writes)
+	pub.Process()
+	v.Reach("publisher-session-done")
+	got := ssock.writes[before:]
+	v.Assert(len(got) == n, "C10.throttled.no-loss-no-duplication")
+	for k := 0; k < len(got) && k < n; k++ {
+		p, err := mqtt.DecodePacket(bytes.NewReader(got[k]), 65536)
+		v.Assert(err == nil, "C10.throttled.stream-is-whole-packets")
+		pp, ok := p.(*mqtt.Publish)
+		v.Assert(ok && len(pp.Payload) == 2 && int(pp.Payload[0]) == k && pp.Payload[1] == data[k], "C10.throttled.per-publisher-order")
+	}
+	v.Observe("n", uint64(len(got)))
 }
